@@ -53,6 +53,8 @@ var mirrorType = map[MessageType]MessageType{
 	MsgEnableROSpecResponse:          MsgEnableROSpec,
 	MsgGetAccessSpecs:                MsgGetAccessSpecsResponse,
 	MsgGetAccessSpecsResponse:        MsgGetAccessSpecs,
+	MsgGetROSpecs:                    MsgGetROSpecsResponse,
+	MsgGetROSpecsResponse:            MsgGetROSpecs,
 	MsgGetReaderCapabilities:         MsgGetReaderCapabilitiesResponse,
 	MsgGetReaderCapabilitiesResponse: MsgGetReaderCapabilities,
 	MsgGetReaderConfig:               MsgGetReaderConfigResponse,
